@@ -21,7 +21,7 @@ from vmon.props import c12
 
 LEVEL = "exploration"
 SHARDS = {"quick": 16, "thorough": 16}
-MUST = ["streams", "options.combos_seen", "solo.packets", "solo.unrecognized", "solo.flagged", "solo.framed_object_parses", "streams.inspected_after_exhaustion", "interleave.calibrator_history", "interleave.error_suspension", "options.root_override_interleaved", "interleavings.exhaustive",
+MUST = ["streams", "options.combos_seen", "solo.packets", "solo.unrecognized", "solo.flagged", "solo.framed_object_parses", "streams.inspected_after_exhaustion", "interleave.calibrator_history", "interleave.error_suspension", "failed_packet.then_good_packets", "solo.recomputed", "options.root_override_interleaved", "interleavings.exhaustive",
         "interleavings.random", "interleavings.threads", "interleave.segmented", "immutability.snapshots", "setattr.monitored_classes"]
 RULE = ("(a) streams of 5-40 generated packets mixing several APIDs x {recognised, unrecognised (dead end / ambiguous), "
         "longer than consumed, shorter than consumed} under all 8 combinations of parse_bad_pkts, "
@@ -269,6 +269,14 @@ def check_streams(ctx, d):
             ctx.count(f"solo.{cls}")
     if not raws:
         return defn
+    # packets whose solo parse raised were parsed in between: whatever they left behind must not change what the others parse to
+    for k, (r_, s0) in enumerate(zip(raws, solos)):
+        s1 = solo_result(defn, r_)
+        ctx.count("solo.recomputed")
+        if s1 != s0:
+            ctx.violation(f"solo-differs/second-parse/{s0[0]}->{s1[0]}", f"packet {k} parsed on its own a second time (after other packets, some of which failed to parse) gives "
+                          f"{s1[0]} instead of {s0[0]}", {"doc": d, "index": k, "first": s0, "second": s1})
+            break
     stream = b"".join(raws)
     outs = [ref.walk(doc, r) for r in raws]
     # "parsing each packet on its own" must not depend on which packet object carries the bytes: the raw packets the
@@ -540,6 +548,37 @@ def calibrator_history(ctx):
         ctx.violation("order-dependence/calibrator-history", "the same packets decode to different items when the stream is reversed", {"n": len(fwd)})
 
 
+def failed_packet_leaves_nothing_behind(ctx):
+    """a packet that cannot be decoded (a text field ending in the middle of a multi-byte character, an unlisted enumeration value, a
+    field running past the end) in one generator / one solo parse leaves nothing behind: the same good packets decode to the same
+    items before and after it, in the same and in other generators"""
+    from space_packet_parser import packets as P
+    from vmon.props.c05 import header_types
+    ts, ps = header_types("PKT_APID")
+    ts += [ir.PType("TXT_T", "string", ir.StrEnc("UTF-8", 32)), ir.PType("W_T", "string", ir.StrEnc("UTF-16BE", 32)),
+           ir.PType("EN_T", "enumerated", ir.IntEnc(8, "unsigned"), None, ((1, "ONE"), (2, "TWO"))), ir.PType("F_T", "float", ir.FloatEnc(32, "IEEE754", False))]
+    ps += [ir.Param("TXT", "TXT_T"), ir.Param("W", "W_T"), ir.Param("EN", "EN_T"), ir.Param("F", "F_T")]
+    root = ir.Container("CCSDSPacket", tuple(("p", p.name) for p in ps))
+    defn = load_definition(render.render_doc(ir.Doc(tuple(ts), tuple(ps), (root,))))
+    mk = lambda txt, w, en, tail=b"\x3f\x80\x00\x00": bytes(P.create_ccsds_packet(txt + w + bytes([en]) + tail, apid=9))
+    good = [mk(b"wxyz", b"\x00A\x00B", 1), mk(b"\xc3\xa9ab", b"\x01\x00\x00C", 2), mk(b"abcd", b"\x00x\x00y", 1)]
+    bad = [mk(b"abc\xc3", b"\x00A\x00B", 1), mk(b"abcd", b"\xd8\x00\x00A", 1), mk(b"abcd", b"\x00A\x00B", 7), mk(b"abcd", b"\x00A\x00B", 1, tail=b"\x3f")]
+    before = [solo_result(defn, g) for g in good]
+    for bi, b_ in enumerate(bad):
+        monitored(lambda: list(defn.packet_generator(b_)))             # whatever this does (raise / skip) is not judged here
+        solo_result(defn, b_)
+        after = [solo_result(defn, g) for g in good]
+        stream_after = run_stream(defn, b"".join(good))
+        ctx.count("evaluations")
+        ctx.count("failed_packet.then_good_packets")
+        ctx.sig("failed-packet", bi)
+        if after != before or [x for x in stream_after] != [b[1] for b in before if b[0] == "packet"]:
+            k = next((j for j, (a, b2) in enumerate(zip(after, before)) if a != b2), 0)
+            ctx.violation(f"solo-differs/after-failed-packet/{('text-ends-mid-character', 'lone-surrogate', 'unlisted-enum', 'truncated')[bi]}",
+                          f"good packet {k} decodes differently after a packet that cannot be decoded was parsed", {"bad_packet": bi, "good_packet": k,
+                                                                                                                  "before": before[k], "after": after[k]})
+
+
 def error_suspension(ctx):
     """a generator that has just yielded an unrecognized-packet error object is suspended there while OTHER generators (of this and
     of another definition) are advanced: every next() returns (a watchdog alarm turns a blocked next() into a violation)"""
@@ -605,6 +644,8 @@ def _run(ctx):
         calibrator_history(ctx)
     if ctx.mine(2):
         error_suspension(ctx)
+    if ctx.mine(3):
+        failed_packet_leaves_nothing_behind(ctx)
     ndocs = ctx.size(96, 15000)
     for d in range(ndocs):
         if not ctx.mine(d):
